@@ -13,7 +13,8 @@ def sh(cmd, cwd=None, env=None, timeout=3600):
 def main():
     wt, prop, i = sys.argv[1], sys.argv[2], sys.argv[3]
     extra = sys.argv[4:]
-    sid = "%s-m%s" % (prop, i)
+    rnd = os.environ.get("ROUND", "")
+    sid = "%s-%sm%s" % (prop, ("r" + rnd) if rnd else "", i)
     diff = os.path.join(wt, "MUTANT%s.diff" % i)
     demo = os.path.join(wt, "MUTANT%s_demo_test.go.txt" % i)
     md = os.path.join(wt, "MUTANT%s.md" % i)
@@ -28,6 +29,10 @@ def main():
         m = re.search(r"((?:gbn|mailbox)/[\w./-]+_test\.go)", demo_txt[:1500])
         mc = re.search(r"(go test [^\n`]*-run[ =][^\n`]+)", demo_txt[:2500])
         demo_path = m.group(1) if m else None
+        if demo_path is None:
+            m2 = re.search(r"into\s+`?((?:gbn|mailbox))/?`?\s+as\s+`?([\w.-]+_test\.go)", demo_txt[:1500])
+            if m2:
+                demo_path = m2.group(1) + "/" + m2.group(2)
         demo_cmd = mc.group(1).strip() if mc else None
         if demo_cmd:
             demo_cmd = re.sub(r"^\s*cd \S+ && ", "", demo_cmd)
